@@ -28,7 +28,10 @@ class C10(Prop):
     quick_budget_s, thorough_budget_s = 170, 1800
     rule = ("one run = a bare remote seeded with plain git + 2..3 clones made through the wrapper (some cloned before "
             "the remote has any notes ref) + 8..16 steps drawn per clone from {AI commit on the shared branch or on an own "
-            "branch, push (-u for new branches), fetch, pull (merge / --rebase)}, with network faults: a window in which "
+            "branch, push in eight spellings (-u, --force-with-lease[=..], --no-verify HEAD:b, --receive-pack .., no arguments, "
+            "options last), fetch, pull (merge / --rebase)}, in 30% of the runs a foreign-note episode (the author publishes a "
+            "commit with a git that is not the wrapper, somebody else writes a different well-formed note for it on the remote, "
+            "the author syncs: an add/add conflict in the notes ref), with network faults: a window in which "
             "every internal git call naming the remote fails for one clone (partition, then heal), and the wrapper killed "
             "at a drawn internal call of a push or fetch. Safety after every step: every note any repository holds for a "
             "commit equals the note its author's clone wrote (a sync never replaces or deletes a note). Convergence: "
